@@ -224,6 +224,9 @@ func (p *parser) parseIndexOrSliceExpr(left Node, allowSlice bool) Node {
 	if leftType == STRING {
 		t = STRING_TYPE
 	}
+	if left.Type().Fixed {
+		t = fixedType(t) // an element of a variable is a variable
+	}
 	return &IndexExpression{token: tok, Left: left, Index: index, T: t}
 }
 
@@ -293,7 +296,11 @@ func (p *parser) parseDotExpr(left Node) Node {
 		p.appendErrorForToken(`expected map key, found `+p.cur.TokenType().String(), tok)
 		return nil
 	}
-	expr := &DotExpression{token: tok, Left: left, T: left.Type().Sub, Key: key.Literal}
+	t := left.Type().Sub
+	if left.Type().Fixed {
+		t = fixedType(t) // a field of a variable is a variable
+	}
+	expr := &DotExpression{token: tok, Left: left, T: t, Key: key.Literal}
 	p.advance() // advance past key IDENT
 	return expr
 }
@@ -329,7 +336,7 @@ func (p *parser) parseTypeAssertion(left Node) Node {
 	if t == nil {
 		return nil // previous error: no node without a type
 	}
-	return &TypeAssertion{T: t, token: tok, Left: left}
+	return &TypeAssertion{T: fixedType(t), token: tok, Left: left}
 }
 
 func isBinaryOp(tt lexer.TokenType) bool {
